@@ -1,6 +1,17 @@
 """C12 — dispatch_time arithmetic is monotone, clock-preserving and saturating."""
 from common import run_lines
 
+META = {
+    "text": "Lean theorems over a transcription of dispatch_time / dispatch_walltime / _dispatch_timeout state the property for all 2^64 bases, "
+            "all int64 deltas and all timespecs (time_shift, shifted_same_clock, shifted_monotone, forever_absorbing, walltime_*, timeout_past_is_zero); "
+            "the transcription is tied to src/time.c on every run by constants generated from the headers and by an exact 64-bit differential run "
+            "against the library rebuilt from the working tree with the clocks interposed; the property's statement is also evaluated directly on "
+            "every real result, which is what produces the failing input when something breaks.",
+    "note": "Trusted: Lean kernel; the transcription is validated, not generated (L-fn differential, ~70k inputs quick / ~700k thorough); clock readings "
+            "assumed in the representable range; mach unit = ns. A timespec beyond +292 years is treated as FOREVER before delta is added (partial, stated).",
+    "technique": "Lean 4 proof (omega over 64-bit wrap-around arithmetic) + generated constants + differential run vs the real library",
+}
+
 M = 2 ** 64
 MAXV = 2 ** 62 - 1
 FOREVER = M - 1
